@@ -58,9 +58,9 @@ def _objstr(x):
 
 
 def _preview(a):
-    if a.size <= 8:
-        return a.tolist()
-    return a[:8].tolist() + ["..."]
+    # as text: NaN must compare equal to itself in canonical forms
+    out = [repr(x) for x in a[:8].tolist()]
+    return out + ["..."] if a.size > 8 else out
 
 
 def same(a, b) -> bool:
